@@ -109,7 +109,9 @@ func (gw *eventBasedGateway) NextAction(ctx context.Context, flow Flow) chan IAc
 		go gw.run(ctx, sender)
 	})
 
-	response := make(chan IAction)
+	// buffered: the gateway answers exactly once per request and must not
+	// block on a flow that has gone (instance cancelled)
+	response := make(chan IAction, 1)
 	gw.mch <- nextActionMessage{response: response, flow: flow}
 	return response
 }
